@@ -171,11 +171,15 @@ def jobs(tier):
         _job("S2-ctl-c3-core-kinds-bare", lambda ch: s2.CtlGen(ch, 3, 2, 1, kinds=["if", "ifelse", "while"], trail="never"), 4,
              {"space": "S2-ctl", "compounds<=": 3, "kinds": ["if", "ifelse", "while"], "depth<=": 2, "terminators<=": 1, "marker after a compound": "never"}, 1800),
     ]
+    c3t2 = (_job("S2-ctl-c3-t2-if-while-bare", lambda ch: s2.CtlGen(ch, 3, 2, 2, kinds=["if", "while"], trail="never"), 4,
+                         {"space": "S2-ctl", "compounds<=": 3, "kinds": ["if", "while"], "depth<=": 2, "terminators<=": 2, "marker after a compound": "never"}, 1800))
     armloop = _job("S2-loop-in-branch-arm", lambda ch: s2.ArmLoopGen(ch), 3,
                    {"space": "S2-armloop", "programs": "loop kind x two guarded terminators / plain branches in the body x loop else x statement before / after the loop in the arm x other arm (none, marker, early return, return)"}, 900)
     deadscope = _job("S2-names-bound-only-in-dead-code", lambda ch: s2.DeadScopeGen(ch), 1,
                      {"space": "S2-deadscope", "programs": "an assignment behind return / break / continue x a read of that name in live code"}, 300)
-    barejobs = barejobs + [armloop, deadscope]
+    seqloop = _job("S2-multi-exit-loop-then-branching-code", lambda ch: s2.SeqLoopGen(ch), 3,
+                   {"space": "S2-seqloop", "programs": "loop kind x two guarded terminators / plain branches x loop else x what follows (second loop with early return / break, nested if with return, if-return, if-else returns)"}, 900)
+    barejobs = barejobs + [armloop, seqloop, deadscope] + ([c3t2] if tier != "quick" else [])
     if tier == "quick":
         return raisejobs + barejobs + [forjob, loopjob, passjob, passjob2,
             _job("S2-ctl-c2-d2-t1", lambda ch: s2.CtlGen(ch, 2, 2, 1), 3,
